@@ -76,7 +76,7 @@ func LoadAr(in io.ReaderAt) (*Ar, error) {
 func (d *Ar) Next() (*ArEntry, error) {
 	line := make([]byte, 60)
 
-	count, err := d.in.ReadAt(line, d.offset)
+	count, err := readAt(d.in, line, d.offset)
 	if err != nil {
 		return nil, err
 	}
@@ -184,9 +184,20 @@ func parseArEntry(line []byte) (*ArEntry, error) {
 
 // Given a brand spank'n new os.File entry, go ahead and make sure it looks
 // like an `ar(1)` archive, and not some random file.
+// Fill buf from the given offset. An io.ReaderAt is allowed to report io.EOF
+// together with a full buffer when the read ends exactly at the end of the
+// input; that is not an error.
+func readAt(reader io.ReaderAt, buf []byte, offset int64) (int, error) {
+	count, err := reader.ReadAt(buf, offset)
+	if err == io.EOF && count == len(buf) {
+		err = nil
+	}
+	return count, err
+}
+
 func checkAr(reader io.ReaderAt) (int64, error) {
 	header := make([]byte, 8)
-	if _, err := reader.ReadAt(header, 0); err != nil {
+	if _, err := readAt(reader, header, 0); err != nil {
 		return 0, err
 	}
 	if string(header) != "!<arch>\n" {
